@@ -124,4 +124,37 @@ example : edgesFor (allLonger gEx 0) [⟨"this", .opaque, [some 1]⟩, ⟨"x", .
     = some [⟨"this", .opaque⟩, ⟨"x", .slice⟩] := by decide
 example : (allLonger (astGraph ⟨2, [(1, 0), (0, 1)], []⟩) 0).length = 2 := by decide
 
+/-! ### borrowing structs nested in borrowing structs (`compute_for_struct_field`, the `_fieldsForLifetimeX` getters) -/
+
+/-- **Exactly the inner definition lifetimes instantiated with `x`.** The getter of the outer struct for its lifetime
+    `x` spreads, for a struct-typed field instantiated with `args`, the inner getter of definition lifetime `i` iff the
+    `i`-th argument is `x` — also when `x` fills several positions (`Pair<'a, 'a>`) or the positions are crossed;
+    a `'static` argument (`none`) never contributes. -/
+theorem nested_field_exact (args : List (Option Nat)) (x i : Nat) :
+    i ∈ fieldDefLts args x ↔ args[i]? = some (some x) := by
+  unfold fieldDefLts
+  simp only [List.mem_filterMap, List.mem_zipIdx_iff_getElem?, Prod.exists]
+  constructor
+  · rintro ⟨a, j, hj, h⟩
+    by_cases ha : a = some x
+    · simp [ha] at h; subst h; simpa [ha] using hj
+    · simp [ha] at h
+  · intro h
+    exact ⟨some x, i, by simpa using h, by simp⟩
+
+/-- … for every field of the struct: nothing that is borrowed under `x` through a nested struct is left out of the
+    getter, and nothing else is put in -/
+theorem nested_getter_exact (fields : List (String × List (Option Nat))) (x : Nat) (f : String) (i : Nat) :
+    (f, i) ∈ nestedGetter fields x ↔ ∃ args, (f, args) ∈ fields ∧ args[i]? = some (some x) := by
+  unfold nestedGetter
+  simp only [List.mem_flatMap, List.mem_map, Prod.mk.injEq]
+  constructor
+  · rintro ⟨⟨g, args⟩, hmem, j, hj, rfl, rfl⟩
+    exact ⟨args, hmem, (nested_field_exact args x j).mp hj⟩
+  · rintro ⟨args, hmem, h⟩
+    exact ⟨(f, args), hmem, i, (nested_field_exact args x i).mpr h, rfl, rfl⟩
+
+example : nestedGetter [("pair", [some 1, some 0]), ("other", [some 0, some 0]), ("fixed", [none, some 1])] 0
+    = [("pair", 1), ("other", 0), ("other", 1)] := by decide
+
 end DiplomatModel.Props.C04
